@@ -146,9 +146,41 @@ STRENGTHENED = """
 | C20-a (wait on Done()) / C10-b (updates dropped during fetch) | deployment-closed rarely hit an in-flight fetch; fetch answers were always computed at completion time; no submission of the previous version | close is 4x more likely while a fetch is in flight; 40 % of fetch answers reflect the state at issue time; new submission kind "previous-version" |
 """
 
+REFACTORS = """
+## 4. Behaviour-preserving restructurings (`refactors/<area>-<r1|r2>/`): no alarm expected
+
+Twenty patches written by fresh sub-agents that were told to restructure one area of /repo without changing
+behaviour (renamed unexported identifiers and struct fields, reordered declarations, loops split into helper
+methods, select loops turned into `step()` methods, files split) - 420 to 1 750 diff lines each, the touched
+packages' tests pass.  Each was applied to /repo (`tools/refeval.sh`), the checks whose code it touches were run
+(quick tier; for the provider's actors also the thorough tier with a 150 s budget, so that the Layer-2
+instrumenter meets the restructured sources), and the patch was undone.  Expected and obtained: exit 0
+everywhere, no `LAYER2-UNAVAILABLE`.
+
+| area | patch r1 | patch r2 | checks run | result |
+|---|---|---|---|---|
+| x/escrow | keeper operations, store access, keys | settlement, payout helpers, type validation | C01 C02 C03 C05 | exit 0 |
+| x/market | message server, escrow hooks, id parsing | keeper store access, keys | C04 C05 C06 C08 C16 | exit 0 |
+| x/deployment | keeper store access, keys | message server, group/resource validation, matching | C04 C19 C16 C08 | exit 0 |
+| x/cert, x/audit, x/provider, types/attribute | x/cert keeper, handler, types | audit keeper, provider handler, attributes | C17 C08 C07 | exit 0 |
+| provider/bidengine | order.go run loop into per-result handlers | service.go, provider attribute services | C13 quick + thorough | exit 0 |
+| provider/manifest | manager run loop, watchdog (rebased onto fix 78487b9) | service loop, validation/manifest.go | C20 C10 quick, C20 thorough | exit 0 |
+| provider/cluster | deployment manager, service | inventory, hostname service, monitor | C14 (C12) quick, C14 thorough | exit 0 |
+| pubsub, util/runner, events | bus.go, runner.go | events/publish.go, sdkutil/event.go | C15 (C16) quick, C15 thorough | exit 0 |
+| provider/gateway | TLS verification, middleware, paths | router.go | C09 (Layer-2 build of the restructured middleware) | exit 0 |
+| provider/cluster/kube | builders, util | client.go, apply.go, cleanup.go | C11 | r1 exit 0; **r2 first ended with exit 2 (`BUILD-FAILED kubesim`)** |
+
+The one failure was the machinery's: the build-time export `VerifNewClient` filled the unexported `client` struct
+by field name, and kube-r2 renames `ns` to `manifestNS`.  The export now finds the fields by their types
+(kubernetes clientset, akash clientset, `Settings`, logger, the one string) and takes the name of the type that
+implements `kube.Client` from client.go; with that, kube-r2 builds and passes.  (One more exit 2 in the log,
+pubsubevents-r2 C15 thorough, was caused by editing `./check` while it was running; the script is now read
+completely before it executes, and the run was repeated: exit 0.)  Raw results: `refactors/RESULTS.txt`.
+"""
+
 def main():
     seeded = open("/verif/build/seeded_table.md").read() if os.path.exists("/verif/build/seeded_table.md") else "(run tools/keepseeded.py)\n"
-    open("/verif/SENSITIVITY.md", "w").write(HEAD + seeded + STRENGTHENED)
+    open("/verif/SENSITIVITY.md", "w").write(HEAD + seeded + STRENGTHENED + REFACTORS)
 
 if __name__ == "__main__":
     main()
